@@ -38,6 +38,17 @@ def read_battery(rng, cfg, exp, files):
 def check_reads(res, cfg, exp, chdir, files, hist, rng, sig_prefix=""):
     import digital_rf
     r = digital_rf.DigitalRFReader(common.path_form(os.path.dirname(chdir)))
+    # the reader was given its directory in one of several spellings (some relative); from here on the process
+    # works in another directory: a reader keeps reading the tree it was opened on
+    cwd0 = os.getcwd()
+    os.chdir(common.scratch_root())
+    try:
+        _check_reads(res, r, cfg, exp, chdir, files, hist, rng, sig_prefix)
+    finally:
+        os.chdir(cwd0)
+
+
+def _check_reads(res, r, cfg, exp, chdir, files, hist, rng, sig_prefix):
     for (s, e) in read_battery(rng, cfg, exp, files):
         want = wl.runs_of(exp, s, e)
         try:
